@@ -59,8 +59,14 @@ def run(mod, tier, seed, replay=None):
     hargs = [prop] + getattr(mod, "HARNESS_ARGS", [])
     impl, rc_i, err_i = C.run_lines(hbin, hargs, cases, timeout=getattr(mod, "TIMEOUT", 900), env=henv)
     have_driver = os.path.exists(C.driver_bin())
+    # optional per-module hooks: `model_case(line, impl_obs)` = the line the model is asked (default: the
+    # case itself; T-out checks hand the implementation's log to the model's decidable predicate) and
+    # `agree(line, impl_obs, model_obs)` (default: equality)
+    model_case = getattr(mod, "model_case", lambda line, io: line)
+    agree = getattr(mod, "agree", lambda line, io, mo: io == mo)
     if have_driver:
-        model, rc_m, err_m = C.run_lines(C.driver_bin(), [prop], cases, timeout=900)
+        model, rc_m, err_m = C.run_lines(C.driver_bin(), [prop], [model_case(l, io) for l, io in zip(cases, impl)],
+                                         timeout=900)
     else:
         model = [None] * len(cases)
 
@@ -68,7 +74,7 @@ def run(mod, tier, seed, replay=None):
         i2, _, _ = C.run_lines(hbin, hargs, [line], timeout=120, env=henv)
         m2 = [None]
         if have_driver:
-            m2, _, _ = C.run_lines(C.driver_bin(), [prop], [line], timeout=120)
+            m2, _, _ = C.run_lines(C.driver_bin(), [prop], [model_case(line, i2[0])], timeout=120)
         return i2[0], m2[0]
 
     disagreements, pviol = [], []
@@ -83,7 +89,7 @@ def run(mod, tier, seed, replay=None):
         why = mod.predicate(line, io) if io is not None else "implementation produced no output (crash or hang)"
         if why:
             pviol.append((line, io, mo, why))
-        elif have_driver and io != mo:
+        elif have_driver and not agree(line, io, mo):
             disagreements.append((line, io, mo))
     # A failure that does not persist when the case is run again on its own is not counted: the
     # cases are deterministic by construction, so a one-off difference in a batch of tens of
@@ -171,7 +177,7 @@ def run(mod, tier, seed, replay=None):
             line, io, mo = disagreements[0]
             small = line
             if hasattr(mod, "shrink"):
-                small = mod.shrink(line, lambda l: (lambda o: o[0] != o[1])(recheck(l)))
+                small = mod.shrink(line, lambda l: (lambda o: not agree(l, o[0], o[1]))(recheck(l)))
             io2, mo2 = recheck(small)
             small_d = (small, io2, mo2)
             what.append(f"correspondence model/implementation broke on {len(disagreements)} of {len(cases)} cases")
@@ -189,7 +195,7 @@ def run(mod, tier, seed, replay=None):
         "theorems": names, "axioms_used": sorted({a for v in axioms.values() for a in v}),
         "evaluations": len(cases), "distinct_nontrivial": len(distinct),
         "rule": mod.RULE, "samples": samples, "input_distribution": dict(sorted(hist.items())),
-        "traces_validated_against_impl": sum(1 for i, m in zip(impl, model) if i is not None and i == m),
+        "traces_validated_against_impl": sum(1 for l, i, m in zip(cases, impl, model) if i is not None and agree(l, i, m)),
         "disagreements": len(disagreements), "property_predicate_failures": len(pviol),
         "impl_missing_outputs": sum(1 for i in impl if i is None),
         "transient_not_reproduced": transient,
